@@ -68,6 +68,9 @@ var denylist = map[string]string{
 	"swank:stop-server":         "stops a network server",
 	"swank:swank-server":        "starts a network server",
 	"swank:swank-stop":          "stops a network server",
+	"repl:repl":                 "starts the interactive read-eval-print loop on the terminal and sets up ~/.config/slip",
+	"repl:quit":                 "raises the fatal quit condition that ends the process",
+	"repl:edit-stash":           "launches $EDITOR on the terminal",
 	"common-lisp-user:c04-mark": "the harness's own marker",
 }
 
